@@ -231,6 +231,20 @@ func (env *SpecEnv) typeOf(e ast.Expr) types.Type {
 
 func (env *SpecEnv) lookupIdent(name string) (Val, bool) {
 	c := env.c
+	if env.fr != nil && env.hdr != nil {
+		// a parameter that is reassigned in the loop is a loop-carried value at the header
+		for _, in := range env.hdr.Instrs {
+			phi, ok := in.(*ssa.Phi)
+			if !ok {
+				break
+			}
+			if phi.Comment == name {
+				if v, ok := env.fr.vals[phi]; ok {
+					return v, true
+				}
+			}
+		}
+	}
 	if v, ok := env.vars[name]; ok {
 		return v, true
 	}
@@ -428,6 +442,7 @@ func (c *Ctx) specVal0(env *SpecEnv, e ast.Expr, want types.Type) Val {
 		case *types.Slice:
 			key := c.arrKeyFor(u.Elem())
 			c.ensureHeapSort(key, u.Elem())
+			c.registerIdx(idx)
 			h := c.heapSym(env.cur, key)
 			return c.mkVal(u.Elem(), fmt.Sprintf("(select (select %s (s_arr %s)) %s)", h, xv.S, c.idxAdd(fmt.Sprintf("(s_off %s)", xv.S), idx)))
 		case *types.Array:
@@ -1100,13 +1115,60 @@ func (c *Ctx) specQuant(env *SpecEnv, kind string, x *ast.CallExpr) Val {
 	c.n++
 	vn := fmt.Sprintf("%s!q%d", id.Name, c.n)
 	var out string
+	npre := len(c.pre)
+	// definitions emitted while translating the body (inlined Go functions) mention
+	// the bound variable: they are turned into let-bindings inside the quantifier
+	wrapBody := func(body string, forall bool) string {
+		lines := append([]string(nil), c.pre[npre:]...)
+		c.pre = c.pre[:npre]
+		var hyps []string
+		type bind struct{ name, term string }
+		var binds []bind
+		for _, l := range lines {
+			parts := topSexps(l[1 : len(l)-1])
+			switch {
+			case len(parts) == 5 && parts[0] == "define-fun" && parts[2] == "()" && strings.HasPrefix(parts[1], "glob_"):
+				c.pre = append(c.pre, l) // package-level constant: global definition
+			case len(parts) == 5 && parts[0] == "define-fun" && parts[2] == "()":
+				binds = append(binds, bind{parts[1], parts[4]})
+			case len(parts) == 2 && parts[0] == "assert":
+				// facts established while evaluating the body (ranges …): they may mention
+				// let-bound names, so they are kept in order as nested hypotheses
+				binds = append(binds, bind{"", parts[1]})
+			case len(parts) >= 3 && (parts[0] == "declare-const" || parts[0] == "declare-fun") && (strings.HasPrefix(parts[1], "heap_") || parts[0] == "declare-fun" || strings.HasPrefix(parts[1], "glob_")):
+				// initial heap symbols / uninterpreted functions first mentioned here do not depend on the bound variable: keep them global
+				c.pre = append(c.pre, l)
+			default:
+				env.fail("quantifier body needs a fresh symbol (not expressible inside a quantifier): " + truncate(l, 120))
+			}
+		}
+		_ = hyps
+		t := body
+		for i := len(binds) - 1; i >= 0; i-- {
+			b := binds[i]
+			if b.name == "" {
+				if forall {
+					t = fmt.Sprintf("(=> %s %s)", b.term, t)
+				} else {
+					t = fmt.Sprintf("(and %s %s)", b.term, t)
+				}
+			} else {
+				t = fmt.Sprintf("(let ((%s %s)) %s)", b.name, b.term, t)
+			}
+		}
+		return t
+	}
 	switch len(x.Args) {
 	case 4:
 		it := types.Typ[types.Int]
 		sub.vars[id.Name] = Val{T: it, S: vn}
 		lo := c.specVal(env, x.Args[1], it)
 		hi := c.specVal(env, x.Args[2], it)
+		npre = len(c.pre)
+		c.inQuant++
 		body := c.specBool(&sub, x.Args[3])
+		c.inQuant--
+		body = wrapBody(body, kind == "forall")
 		rng := and(c.idxLe(lo.S, vn), c.idxLe(c.idxAdd(vn, c.sorts.idxLit(1)), hi.S))
 		if c.mode == BV {
 			rng = and(c.idxLe(lo.S, vn), fmt.Sprintf("(bvslt %s %s)", vn, hi.S))
@@ -1131,7 +1193,11 @@ func (c *Ctx) specQuant(env *SpecEnv, kind string, x *ast.CallExpr) Val {
 		if t == mathIntT {
 			sub.vars[id.Name] = Val{T: mathIntT, S: vn}
 		}
+		npre = len(c.pre)
+		c.inQuant++
 		body := c.specBool(&sub, x.Args[2])
+		c.inQuant--
+		body = wrapBody(body, kind == "forall")
 		rng := "true"
 		if bits, signed, ok := isIntType(t); ok && t != mathIntT && c.mode == INT {
 			rng = c.sorts.rangePred(vn, bits, signed)
